@@ -15,10 +15,10 @@ vm/mod.rs::eval_impl on every run (extract_effects); an arm whose structural cal
 is encoded as a nondeterministic choice.  The operand-stack arity table is hand-written below and
 cross-checked against the number of stack.push/pop occurrences in each arm.
 """
-import re, json, sys, time
+import os, re, json, sys, time
 import z3
 
-VM_RS = '/repo/minijinja/src/vm/mod.rs'
+VM_RS = os.path.join(os.environ.get('VERIF_REPO', '/repo'), 'minijinja/src/vm/mod.rs')
 
 L, W = 1, 0  # frame kinds
 
